@@ -216,9 +216,19 @@ func init() {
 				return Viol("join-separator", "", "the executed script %q does not contain the members joined by %q", o.Script, sep)
 			}
 			if v := flowOracle(inc, ex); v.Status != "ok" {
-				return v
+				// only the joining task's own output is this property's business
+				if v.Clause == "wrong-content" && strings.Contains(v.Detail, "joined.join.o0 ") {
+					return v
+				}
+				return foreign(v)
 			}
-			return auditOracle(inc.Sim.FS.Root, ex, instsByKey(inc))
+			if v := auditOracle(inc.Sim.FS.Root, ex, instsByKey(inc)); v.Status != "ok" {
+				if v.Clause == "audit-upstream-keys" && strings.HasPrefix(v.Detail, "joined.join.o0.audit.json:") {
+					return v
+				}
+				return foreign(v)
+			}
+			return OK()
 		}})
 }
 
